@@ -90,6 +90,16 @@ def crender(node, style, col, ic, N=0):
         for x in node[1]:
             out += crender(x, style, col + ic, ic, N)
         return out + [pad(col) + "}"]
+    if k == "switchi":
+        bc = col + N
+        out = [pad(col) + "switch (a) {"] if style != "allman" else [pad(col) + "switch (a)", pad(bc) + "{"]
+        for lab, body in node[1]:
+            first = crender(body[0], style, bc + ic, ic, N)
+            out.append(pad(bc) + lab + " " + first[0].strip())     # the statement shares the label's line ...
+            out += first[1:]                                       # ... its continuation is placed as if it stood on its own line
+            for x in body[1:]:
+                out += crender(x, style, bc + ic, ic, N)
+        return out + [pad(bc) + "}"]
     if k == "switch":
         bc = col + N
         out = [pad(col) + "switch (a) {"] if style != "allman" else [pad(col) + "switch (a)", pad(bc) + "{"]
